@@ -473,9 +473,31 @@ func (s *SimOS) ReadDir(name string) ([]ros.DirEntry, error) {
 			cn = s.nodes["/"+c]
 		}
 		gi := ros.NewFileInfo(ros.GenericFileInfoOpts{Name: c, Size: int64(len(cn.data)), Mode: cn.mode, ModTime: epoch, IsDir: cn.dir})
-		out = append(out, ros.NewDirEntry(ros.GenericDirEntryOpts{Name: c, Mode: cn.mode, Info: gi}))
+		out = append(out, &simDirEntry{os: s, dir: name, name: c, mode: cn.mode, isDir: cn.dir, info: gi})
 	}
 	return out, nil
+}
+
+// simDirEntry is a directory entry whose Info() is a (failable, logged) call
+// of its own, like an lstat after the readdir.
+type simDirEntry struct {
+	os    *SimOS
+	dir   string
+	name  string
+	mode  fs.FileMode
+	isDir bool
+	info  fs.FileInfo
+}
+
+func (e *simDirEntry) Name() string      { return e.name }
+func (e *simDirEntry) IsDir() bool       { return e.isDir }
+func (e *simDirEntry) Type() fs.FileMode { return e.mode.Type() }
+func (e *simDirEntry) HasInfo() bool     { return true }
+func (e *simDirEntry) Info() (fs.FileInfo, error) {
+	if _, err := e.os.log("DirEntry.Info", true, e.dir+"/"+e.name); err != nil {
+		return nil, err
+	}
+	return e.info, nil
 }
 
 func (s *SimOS) WalkDir(root string, fn ros.WalkDirFunc) error {
